@@ -29,17 +29,24 @@ private def sha1Compress (h : Array UInt32) (blk : ByteArray) (off : Nat) : Arra
     e := d; d := c; c := rotl1 b 30; b := a; a := tmp
   return #[h[0]! + a, h[1]! + b, h[2]! + c, h[3]! + d, h[4]! + e]
 
-def sha1BA (msg : ByteArray) : ByteArray := Id.run do
+/-- the five state words, big-endian: 20 bytes by construction -/
+def digestBE5 (h : Array UInt32) : ByteArray := ByteArray.mk #[
+    (h[0]! >>> 24).toUInt8, (h[0]! >>> 16).toUInt8, (h[0]! >>> 8).toUInt8, h[0]!.toUInt8,
+    (h[1]! >>> 24).toUInt8, (h[1]! >>> 16).toUInt8, (h[1]! >>> 8).toUInt8, h[1]!.toUInt8,
+    (h[2]! >>> 24).toUInt8, (h[2]! >>> 16).toUInt8, (h[2]! >>> 8).toUInt8, h[2]!.toUInt8,
+    (h[3]! >>> 24).toUInt8, (h[3]! >>> 16).toUInt8, (h[3]! >>> 8).toUInt8, h[3]!.toUInt8,
+    (h[4]! >>> 24).toUInt8, (h[4]! >>> 16).toUInt8, (h[4]! >>> 8).toUInt8, h[4]!.toUInt8]
+
+def sha1State (msg : ByteArray) : Array UInt32 := Id.run do
   let p := mdPadBE msg
   let mut h : Array UInt32 := #[0x67452301, 0xefcdab89, 0x98badcfe, 0x10325476, 0xc3d2e1f0]
   for i in [0:p.size / 64] do
     h := sha1Compress h p (64 * i)
-  let mut out := ByteArray.emptyWithCapacity 20
-  for x in h do
-    out := out.push (x >>> 24).toUInt8 |>.push (x >>> 16).toUInt8 |>.push (x >>> 8).toUInt8 |>.push x.toUInt8
-  return out
+  return h
+
+def sha1BA (msg : ByteArray) : ByteArray := digestBE5 (sha1State msg)
 
 /-- SHA-1 on byte lists (20-byte digest) -/
-def sha1 (msg : Bytes) : Bytes := (sha1BA (ByteArray.mk msg.toArray)).toList
+def sha1 (msg : Bytes) : Bytes := (sha1BA (ByteArray.mk msg.toArray)).data.toList
 
 end BtcVerif.Crypto
